@@ -27,6 +27,7 @@ import (
 type c17Case struct {
 	TimeoutMs    int     `json:"timeout_ms"`
 	PingDiv      int     `json:"ping_div"`       // client ping = timeout / PingDiv (>= 4)
+	PingPct      int     `json:"ping_pct,omitempty"` // > 0: client ping = timeout * PingPct / 100 instead (30..45: still below half the timeout)
 	ServerPingMs int     `json:"server_ping_ms"` // -1 = off (0 would mean the library default of 5 s)
 	Scenario     string  `json:"scenario"`       // long_call | idle_then_call | stream | mixed | blackhole_pending | blackhole_idle
 	Factor       float64 `json:"factor"`         // duration as a multiple of the timeout
@@ -51,6 +52,9 @@ func runC17(c c17Case) *Violation {
 		}
 	}
 	ping := T / time.Duration(c.PingDiv)
+	if c.PingPct > 0 && c.Scenario != "slow_reader_big_transfer" {
+		ping = T * time.Duration(c.PingPct) / 100
+	}
 	sp := time.Duration(c.ServerPingMs*scale) * time.Millisecond
 	if c.ServerPingMs < 0 {
 		sp = -1
@@ -414,15 +418,18 @@ func c17NT(c c17Case) (bool, []string) {
 	if c.Factor > 1 {
 		cl = append(cl, "longer_than_timeout")
 	}
+	if c.PingPct > 0 {
+		cl = append(cl, "ping_above_quarter_timeout")
+	}
 	return c.Factor > 1 || strings.HasPrefix(c.Scenario, "blackhole"), cl
 }
 
-const c17Rule = "client timeout 600-1500 ms with ping = timeout/4..timeout/8, server ping off or timeout/8..timeout/2.2; scenarios: one call lasting 0.1-3 x timeout, a call plus a paced stream, idleness of 0.5-3 x timeout followed by a call, a paced stream lasting 1.5-3 x timeout, blackhole with three calls pending, blackhole while idle followed by a call, steady notifications, four senders of back-to-back notifications for at least 1.5 x timeout, a long call right after a redial, silence of 2-5 x timeout with redials refused followed by a healed path (client with a reverse handler), a 16 MiB request or response whose path pauses for three ping intervals of its writer (< timeout/2) in the middle of the transfer. Scenarios of the fixed grid run concurrently (each on its own server, proxy and client). Non-trivial = duration above the timeout, or a blackhole; distinct by descriptor hash"
+const c17Rule = "client timeout 600-1500 ms with ping = timeout/4..timeout/8 or 30-48 % of the timeout, server ping off or timeout/8..timeout/2.2; scenarios: one call lasting 0.1-3 x timeout, a call plus a paced stream, idleness of 0.5-3 x timeout followed by a call, a paced stream lasting 1.5-3 x timeout, blackhole with three calls pending, blackhole while idle followed by a call, steady notifications, four senders of back-to-back notifications for at least 1.5 x timeout, a long call right after a redial, silence of 2-5 x timeout with redials refused followed by a healed path (client with a reverse handler), a 16 MiB request or response whose path pauses for three ping intervals of its writer (< timeout/2) in the middle of the transfer. Scenarios of the fixed grid run concurrently (each on its own server, proxy and client). Non-trivial = duration above the timeout, or a blackhole; distinct by descriptor hash"
 
 func TestC17(t *testing.T) {
 	rec := NewRec("C17", c17Rule)
 	defer rec.Finish(t)
-	rec.RequireClass("scenario_notification_storm", "scenario_long_blackhole_then_heal", "scenario_slow_reader_big_transfer", "scenario_long_call_after_redial", "scenario_steady_notifications", "scenario_blackhole_fresh_steady", "scenario_long_call", "scenario_idle_then_call", "scenario_stream", "scenario_mixed", "scenario_blackhole_pending", "scenario_blackhole_idle", "server_ping_off", "server_ping_on", "longer_than_timeout")
+	rec.RequireClass("ping_above_quarter_timeout", "scenario_notification_storm", "scenario_long_blackhole_then_heal", "scenario_slow_reader_big_transfer", "scenario_long_call_after_redial", "scenario_steady_notifications", "scenario_blackhole_fresh_steady", "scenario_long_call", "scenario_idle_then_call", "scenario_stream", "scenario_mixed", "scenario_blackhole_pending", "scenario_blackhole_idle", "server_ping_off", "server_ping_on", "longer_than_timeout")
 	var mu sync.Mutex
 	var firstV *Violation
 	var firstC c17Case
@@ -457,8 +464,20 @@ func TestC17(t *testing.T) {
 					if spOn {
 						c.ServerPingMs = T / (3 + (k % 4))
 					}
+					if k%3 == 0 {
+						c.PingPct = []int{35, 45, 30, 40}[(k/3)%4]
+					}
 					cases = append(cases, c)
 				}
+			}
+		}
+		// ping intervals between a quarter and a half of the timeout, keepalives being the only inbound traffic
+		for _, pct := range []int{33, 35, 37, 42, 48} {
+			for _, sc := range []string{"long_call", "idle_then_call"} {
+				if !thorough() && (pct == 42 || pct == 48) && sc == "long_call" {
+					continue
+				}
+				cases = append(cases, c17Case{TimeoutMs: 800, PingDiv: 4, PingPct: pct, ServerPingMs: -1, Scenario: sc, Factor: 2.5})
 			}
 		}
 		sh, nsh := shard()
@@ -483,7 +502,7 @@ func TestC17(t *testing.T) {
 	})
 	rec.Rapid(t, "rapid", func(rt *rapid.T) {
 		T := rapid.SampledFrom([]int{600, 800, 1000, 1500}).Draw(rt, "timeout")
-		c := c17Case{TimeoutMs: T, PingDiv: rapid.IntRange(4, 8).Draw(rt, "pingdiv"), ServerPingMs: -1,
+		c := c17Case{TimeoutMs: T, PingDiv: rapid.IntRange(4, 8).Draw(rt, "pingdiv"), PingPct: rapid.SampledFrom([]int{0, 0, 30, 33, 35, 37, 42, 48}).Draw(rt, "pingpct"), ServerPingMs: -1,
 			Scenario: rapid.SampledFrom([]string{"long_call", "mixed", "idle_then_call", "stream", "blackhole_pending", "blackhole_idle", "blackhole_fresh_steady", "long_call_after_redial", "steady_notifications", "long_blackhole_then_heal", "slow_reader_big_transfer", "notification_storm"}).Draw(rt, "scenario"),
 			Factor:   float64(rapid.IntRange(1, 30).Draw(rt, "factor10")) / 10}
 		if rapid.Bool().Draw(rt, "serverping") {
